@@ -360,6 +360,17 @@ def one_case(case: Dict[str, Any]) -> Dict[str, Any]:
                     for rel, text in extra_files.items():
                         (base / lab_ / rel).write_text(text)
                     steps.append({"dir": str(base / lab_), "strategy": strategy})
+            # a thinner schema under the SAME type names (every root type keeps its first field only, the rest is what stays reachable), same configuration: what a
+            # generator remembers per type NAME across generations shows when the real schema then reaches more through those names
+            from ..genpkg import reduced_sdl
+            for thin_ in (False, True, "leaves"):
+                thin_sdl = reduced_sdl(sdl, thin=thin_) if not cfg.get("remote_schema_url") else None
+                if thin_sdl:
+                    lab_ = "decoy-same-names-%s" % (thin_ if isinstance(thin_, str) else ("thin" if thin_ else "part"))
+                    lay_out(base / lab_, [d_ for d_ in thin_sdl.split("\n\n") if d_.strip()], ["query VfEarlier { __typename }"], cfg, None, strategy)
+                    for rel, text in extra_files.items():
+                        (base / lab_ / rel).write_text(text)
+                    steps.append({"dir": str(base / lab_), "strategy": strategy})
             minimal = {"target_file_path": cfg["target_file_path"]} if strategy != "client" else {"include_comments": "none"}
             lay_out(base / "decoy-same-minimal", sdl_defs, query_defs, dict(minimal, **({"remote_schema_url": cfg["remote_schema_url"]} if cfg.get("remote_schema_url") else {})), None, strategy)
             steps.append({"dir": str(base / "decoy-same-minimal"), "strategy": strategy})
